@@ -1,3 +1,4 @@
+from vlib.props import pcommon
 from vlib import corpus
 from vlib import framework as fw
 from vlib.monitors import recmon
@@ -26,3 +27,10 @@ def check(run, only=None):
                                                             m=params["max_len"]))
         out["extra"]["grammars"] = len(gs)
         run.add_bounded(out)
+    if only in (None, "P"):
+        from vlib.companions import parserfuncs as pf
+        import contracts.recovery as cr
+        pcommon.add_proof(run, "C11", cr.RECOVERY_C11 + ["parglare.common.ErrorContext.__init__"], [pf.run_recovery],
+                          "default_error_recovery terminates for every start position (variant len - position), success "
+                          "=> position strictly advanced, <= len, look-ahead set; failure => rest of the input scanned; "
+                          "_next_token leaves the head untouched")
